@@ -84,3 +84,16 @@ def replay(ctx, case):
         check_case(case, ctx)
     except Violation as v:
         ctx.violation(v.klass, v.message, case)
+
+
+def probes(ctx):
+    """open finding `assess_empty_sample`: assess on the (empty) complete sample of a masked-off call"""
+    from vpbt import gfi_probes
+
+    case = {"node": {"k": "mask", "g": gfi_probes.INNER}, "args": [False, 0.3], "key": 3, "flag_repr": "arr", "idx_repr": "arr"}
+    fails, what = False, ""
+    try:
+        check_case(case, None)
+    except Violation as v:
+        fails, what = True, f"{v.klass}: {v.message}"[:300]
+    ctx.probe("assess_empty_sample", fails, what)
